@@ -210,10 +210,11 @@ class MetaMolecule(nx.Graph):
         if self.__search_tree is None:
             if self.root is None:
                 self.root =_find_starting_node(self)
-            if self.dfs:
-                self.__search_tree = nx.bfs_tree(self, source=self.root)
-            else:
-                self.__search_tree = nx.dfs_tree(self, source=self.root)
+            # residues are visited depth-first; for cyclic molecules
+            # (dfs=True) this is required so that the first and the last
+            # node of the tree are the two residues joined by the ring
+            # closing edge. A breadth-first tree ends opposite of the root.
+            self.__search_tree = nx.dfs_tree(self, source=self.root)
 
         return self.__search_tree
 
